@@ -941,7 +941,7 @@ impl<'a> Gui<'a> {
         if matches!(self.focus.as_str(), "C08" | "C11") && !legal.is_empty() && piece_count(root) <= 8 {
             if let Some(d) = c.go.depth {
                 let plain = c.events.is_empty() && !c.stop_before_dequeue && c.go.movetime.is_none() && c.go.wtime.is_none() && c.go.btime.is_none() && rg.searchmoves.is_empty();
-                if plain && d % 2 == 1 && d <= 5 && !self.cur.has_repeated_position() && root.half + (d as u32) < 90 {
+                if plain && d % 2 == 1 && d <= 5 && !self.cur.has_repeated_position() && (self.focus == "C11" || root.half + (d as u32) < 90) {
                     let n = (d as u32 + 1) / 2;
                     let firsts = refchess::search::mate_in(root, n);
                     if !firsts.is_empty() {
@@ -1102,6 +1102,11 @@ impl<'a> Gui<'a> {
             (Score::Centipawn { score: l }, Score::Centipawn { score: h }, Score::Centipawn { score: g }) => l <= g && g <= h,
             (l, h, g) => l == g || h == g,
         };
+        if clock_region && lo == hi && verif::is_checkmate_value(lo) && !ok {
+            // a forced mate inside the horizon does not depend on how non-terminal leaves are valued:
+            // terminal positions are never "fifty-move draws"
+            return Err(viol("C10", "terminal_position_valued_as_fifty_move_draw", format!("{}: engine reports {:?} but the reference finds a forced mate (value {}) within depth {}; half-move clock {} at the root", ctx, got, lo, d, root.half)));
+        }
         if clock_region {
             // at or beyond 100 plies the property only says a draw value MAY appear: observational
             self.res.bump(if ok { "probe.fifty_move_region_agrees" } else { "probe.fifty_move_region_differs" });
@@ -1633,6 +1638,21 @@ pub fn gen_plan_twin(seed: u64, thorough: bool, pool: &[Pos], mates: &[(Pos, u32
             if g.root().has_legal_move() {
                 c.pos = PosSpec::Set { fen: g.fen.clone(), moves: g.moves.clone() };
                 c.go.depth = Some(1 + rng.below(if piece_count(g.root()) > 16 { 2 } else { 3 }));
+            }
+        }
+    }
+    // "a checkmated side always receives a losing mate score, the mating side a winning one":
+    // also when the half-move clock is at the fifty-move boundary
+    for c in p.cycles.iter_mut() {
+        if let PosSpec::Set { fen: Some(f), moves } = &mut c.pos {
+            if moves.is_empty() && c.go.depth.map_or(false, |d| d % 2 == 1) && rng.chance(1, 4) {
+                if let Ok(mut q) = Pos::from_fen(f) {
+                    if q.ep.is_none() && piece_count(&q) <= 8 {
+                        q.half = 96 + rng.below(30) as u32;
+                        q.full = q.full.max(q.half / 2 + 2);
+                        *f = q.to_fen();
+                    }
+                }
             }
         }
     }
